@@ -189,3 +189,43 @@ func VP_C03_Two() {
 	}
 	zzvp.Done()
 }
+
+// VP_C03_SharedFanout: objects whose ids share their first byte live in the same fan-out directory. Two file contents with
+// that relation are found by search (ids are SHA-1 values, so the pair is fixed data, not a solver variable); both are
+// staged and committed under free names: every staged path and every snapshot entry refers to a stored object.
+func VP_C03_SharedFanout() {
+	vpInitRepo()
+	w := zzvp.Root()
+	// the first two single-byte contents whose blob ids start with the same byte, starting the search at a chosen offset
+	start := 32 * zzvp.Choose(4)
+	seen := map[byte]int{}
+	a, b := -1, -1
+	for i := 0; i < 256 && a < 0; i++ {
+		c := (start + i) % 256
+		first := vpBlobID([]byte{byte(c)})[0]
+		if o, ok := seen[first]; ok {
+			a, b = o, c
+		} else {
+			seen[first] = c
+		}
+	}
+	zzvp.Assume(a >= 0)
+	f1 := vpPath("sa", 2, 1)
+	f2 := vpPath("sb", 2, 1)
+	zzvp.Assume(f1 != f2 && !vpHasDirPrefix(f1, f2) && !vpHasDirPrefix(f2, f1))
+	zzvp.WriteFile(w+"/"+f1, []byte{byte(a)})
+	zzvp.WriteFile(w+"/"+f2, []byte{byte(b)})
+	if zzvp.Choose(2) == 0 {
+		vpOK(zzvp.Run("add", f1))
+		vpOK(zzvp.Run("add", f2))
+	} else {
+		vpOK(zzvp.Run("add", "."))
+	}
+	zzvp.Assert(vpFsck() == "", "every staged blob exists although two of them share a fan-out directory")
+	vpOK(zzvp.Run("commit", "-m", "two"))
+	zzvp.Assert(vpFsck() == "", "after the commit every branch, snapshot and blob is there")
+	_, d1, ok1 := vpReadObject(vpG(), vpBlobID([]byte{byte(a)}))
+	_, d2, ok2 := vpReadObject(vpG(), vpBlobID([]byte{byte(b)}))
+	zzvp.Assert(ok1 && ok2 && len(d1) == 1 && len(d2) == 1 && d1[0] == byte(a) && d2[0] == byte(b), "both blobs read back with their own bytes")
+	zzvp.Done()
+}
